@@ -79,7 +79,9 @@ Record minfo := {
   mi_has_default : bool;          (* MockFnInfo.has_default_impl: the trait method has a body *)
   mi_partial_by_default : bool;   (* only Termination::report *)
   mi_has_unmock_arm : bool;       (* the generated body has an Unmock arm *)
-  mi_out_clone : bool             (* the output type is Clone (type level only) *)
+  mi_out_clone : bool;            (* the output type is Clone (type level only) *)
+  mi_more_leaves : nat            (* a single-use response is this many MORE single-use slots than one: the owned components after the
+                                     first of a composite return type with a borrowed element (src/output/deep/tuples.rs) *)
 }.
 
 Definition path_str (i : minfo) : string := mi_trait i ++ "::" ++ mi_method i.
